@@ -75,7 +75,7 @@ pub const BATTERY: [(&str, &str, &str, bool); 31] = [
     ("not", "FIND(?p.id) WHERE { ?p PROPOSITION (?s, \"prefers\", ?o) NOT { ?a ASSERTION {proposition: ?p} } }", "", true),
     ("optional", "FIND(?p.id, ?a.id, ?a.lifecycle.status) WHERE { ?p PROPOSITION (?s, ?pred, ?o) OPTIONAL { ?a ASSERTION {proposition: ?p} } }", "", true),
     ("union", "FIND(?c.id, ?c._system.state) WHERE { ?c CONCEPT {type: \"Person\"} UNION { ?c CONCEPT {state: \"archived\"} } }", "", true),
-    ("belief-slot", "FIND(?s.id, ?slot.contested, ?slot.accepted) WHERE { ?s CONCEPT {type: \"Person\"} ?slot BELIEF SLOT (?s, \"prefers\") }", "", true),
+    ("belief-slot", "FIND(?slot.contested, ?slot.accepted) WHERE { ?slot BELIEF SLOT (:c1, \"prefers\") }", "", true),
 ];
 
 /// every WHERE form of `kql/mod.rs` `apply_clause_inner` the battery exercises (the translator reads this
